@@ -48,7 +48,9 @@ def scopes(tier):
             uses, stmts = min(uses, 1), min(stmts, 3)
             if kw.get("features") == ("twopaths",):
                 uses, stmts = 2, 4
-            kw.pop("FnFlags", None)
+            if not kw.pop("keep_fn", False):
+                kw.pop("FnFlags", None)
+        kw.pop("keep_fn", None)
         return pm.scope(ROPE_CALL, worlds, forms, imports, uses, stmts, **kw)
 
     both = {False, True}
@@ -61,7 +63,9 @@ def scopes(tier):
         ("G", sc("WorldsDeep", "import,importas,from,rel", 2, 2, 4, qforms="import,importas,rel")),
         # module names that are textual prefixes of one another (module_bb / module_bb2); small, replayed fully
         ("S", sc("WorldsSib", "import,importas,from", 2, 1, 3)),
-        ("siblingnames", sc("WorldsPkgSib", "import,importas", 2, 1, 3, features=("siblings",))),
+        # ... with references at top level and inside function bodies (a submodule import may be needed only there)
+        ("siblingnames", sc("WorldsPkgSib", "import,importas", 2, 1, 3, features=("siblings",), FnFlags=both,
+                            keep_fn=True)),
         ("late", sc("WorldsFlat", "import,importas,from,fromas,star", 2, 2, 4, qforms="import,from",
                     features=("late",))),
         ("future", sc("WorldsFlat", "import,from,future", 2, 1, 4, features=("future",))),
@@ -77,7 +81,8 @@ def scopes(tier):
                             features=("reexport",))),
         ("initsub", sc("WorldsInit", "rel,from", 2, 1, 3, qforms="rel", features=("initsub",))),
         ("fromsub", sc("WorldsPkgDeepIn", "import,from,rel", 2, 1, 3, qforms="rel", features=("fromsub",))),
-        ("siblings", sc("WorldsPkgDeep", "import,importas", 2, 2, 4, qforms="import", features=("siblings",))),
+        ("siblings", sc("WorldsPkgDeep", "import,importas", 2, 2, 4, qforms="import", features=("siblings",),
+                        FnFlags=both)),
     ]
 
 
